@@ -149,6 +149,7 @@ fn dispatch(id: &str, tier: Tier) -> i32 {
         "C09" => props::c09::run(tier),
         "C10" => props::c10::run(tier),
         "C11" => props::c11::run(tier),
+        "C12" => props::c12::run(tier),
         "C13" => props::c13::run(tier),
         "C14" => props::c14::run(tier),
         "C15" => props::c15::run(tier),
@@ -175,6 +176,7 @@ fn dispatch_replay(id: &str, case: &Value) -> i32 {
         "C09" => props::c09::replay(case),
         "C10" => props::c10::replay(case),
         "C11" => props::c11::replay(case),
+        "C12" => props::c12::replay(case),
         "C13" => props::c13::replay(case),
         "C14" => props::c14::replay(case),
         "C15" => props::c15::replay(case),
